@@ -109,7 +109,7 @@ prop('C10',
      'environments (excluded by the precondition of C11).')
 
 prop('C12',
-     [T.r12_a, T.r12_f, S.r12_b, CV.t_agree, S.r12_c, S.r12_d, S.r12_e, L_MATH, T.r09_struct, T.r19_a_precondition, TR.r04_a, TR.r03_a],
+     [T.r12_a, T.r12_f, S.r12_b, CV.t_agree, S.r12_c, S.r12_d, S.r12_e, L_MATH, T.r09_struct, T.r19_a_precondition, TR.r04_a, TR.r03_a, CV.r08_a_wellformed],
      'Assertions on the tokenizer dispatch table for $ / $$ / backslash-bracket windows, agreement of the kind <-> '
      'class <-> delimiter tables with the tokenizer, def-use rules on the math-region reader and the dispatcher, and '
      'table rules for operators and sizing commands.',
@@ -164,7 +164,7 @@ prop('C02',
 
 
 prop('C13',
-     [T.r19_a, T.r19_e, T.r19_h, PO.r13_b, PO.r13_c, PO.r13_d, PO.r13_e, PO.r13_f, PO.r13_g],
+     [T.r19_a, T.r19_e, T.r19_h, PO.r13_b, PO.r13_c, PO.r13_d, PO.r13_e, PO.r13_f, PO.r13_g, PO.r13_h],
      'Provenance of positions from the categoriser to the node constructors: the tokenizer abstract interpretation '
      'gives the provenance of every token position; a symbolic (affine) evaluation of the position argument of every '
      'Token built by the Token arithmetic methods; the conservation engine records, for every node the reader builds, '
@@ -177,7 +177,7 @@ prop('C13',
      'in the last line, CR handling).')
 
 prop('C14',
-     [TR.r14_a, TR.r14_b, AR.r18_d, TR.r03_c, CV.r08_e, AR.r18_e],
+     [TR.r14_a, TR.r14_b, AR.r18_d, TR.r03_c, CV.r08_e, AR.r18_e, TR.r04_b],
      'MRO-resolved def-use of the delimiters of named environments, write-through rules for the node setters, the '
      'slice type of argument lists, the live-name match predicate and the lossless-serialiser rule.',
      'R14.a \\begin/\\end of a named environment are computed from its current name and the serialiser reads them '
@@ -213,7 +213,7 @@ prop('C05',
      'the splice equation itself (the resulting text equals the original with the span substituted).')
 
 prop('C15',
-     [TR.r05_a, TR.r05_e, TR.r05_d, TR.r05_c, TR.r15_a, TR.r15_b, TR.r15_c, TR.r15_d, ISO.r17_g, AR.r18_a, AR.r18_f, AR.r18_g, AR.r18_e, CV.r08_e],
+     [TR.r05_a, TR.r05_e, TR.r05_d, TR.r05_c, TR.r15_a, TR.r15_b, TR.r15_c, TR.r15_d, ISO.r17_g, AR.r18_a, AR.r18_f, AR.r18_g, AR.r18_e, CV.r08_e, TR.r04_b],
      'Effect (frame) analysis of the mutators, a no-memoisation rule on the views, a kind-flow analysis of what can '
      'enter a content list through the public mutators, and totality of the text view over those kinds.',
      'R05.a/c targeted look-up by identity and ordered multi-insert; R15.a a mutator writes only its receiver\'s '
